@@ -241,16 +241,14 @@ theorem tempfileErr_abs {w : World} {q : Cq} {e : Bool} {w' : World} {q' : Cq} {
       rw [heq] at this hs
       simp only [Cq.abs] at this ⊢
       rw [← absChunks_same hs]; exact this
-    · cases c with
-      | mem d off cap => simp only [Prod.mk.injEq] at heq; obtain ⟨rfl, rfl⟩ := heq; rfl
-      | file fid off len t fd =>
-        dsimp only at heq
-        split at heq
+    · split at heq
+      · split at heq
         · simp only [Prod.mk.injEq] at heq
           obtain ⟨rfl, rfl⟩ := heq
           simp only [Cq.abs]
           exact abs_setLast hl (x := []) (by simp [Chunk.content]) |>.trans (by simp)
         · simp only [Prod.mk.injEq] at heq; obtain ⟨rfl, rfl⟩ := heq; rfl
+      · simp only [Prod.mk.injEq] at heq; obtain ⟨rfl, rfl⟩ := heq; rfl
   · simp only [Prod.mk.injEq] at heq; obtain ⟨rfl, rfl⟩ := heq; rfl
 
 theorem tempfileErr_spill {base : Nat → Int} {X : List Chunk} {w : World} {q : Cq} {e : Bool}
@@ -1116,6 +1114,9 @@ theorem GI.comm {base : Nat → Int} {w : World} {A B : List Chunk} (h : GI base
 structure FInv (base : Nat → Int) (s : Sys) : Prop where
   inv : Inv s
   gi : GI base s.w s.chunks
+  /-- `base f` counts the names of `f` that do not belong to the queues: never
+      negative, and the files the application hands in by name have one -/
+  src : ∀ f, 0 ≤ base f ∧ (f < s.w.nsrc → 1 ≤ base f)
 
 /-- operations that do not write temp files leave all file contents alone -/
 theorem Sys.set_w (s : Sys) (i : Bool) (q : Cq) : (s.set i q).w = s.w := by cases i <;> rfl
@@ -1164,6 +1165,19 @@ theorem step_same (s : Sys) (op : Op) (hns : op.spills = false) : SameFiles s.w 
   | readSquash qi => simp only [step, Sys.set_w]; exact (readSquash_spec (w := s.w) (q := s.get qi) rfl).1
   | reset qi => simp only [step, Sys.set_w]; exact (reset_spec s.w (s.get qi)).1
 
+/-- no operation changes which files are the application's -/
+theorem step_nsrc (s : Sys) (op : Op) (h : Inv s) : (step s op).1.w.nsrc = s.w.nsrc := by
+  by_cases hns : op.spills = false
+  · exact (step_same s op hns).nsrc
+  · cases op with
+    | appendMemToTempfile qi d =>
+      have := (appendMemToTempfile_spec s.w (s.get qi) d h.fresh (h.get qi)).2.1.nsrc
+      simpa only [step, Sys.set_w] using this
+    | stealWithTempfiles qi n =>
+      have := (stealWithTempfiles_spec s.w (s.get qi) (s.get (!qi)) n h.fresh (h.get qi) (h.get (!qi))).2.1.nsrc
+      simpa only [step, Sys.set_w] using this
+    | _ => exact absurd rfl hns
+
 theorem Inv.valid_chunks {s : Sys} (h : Inv s) : ValidAll s.w s.chunks :=
   ValidAll.append h.q0.valid h.q1.valid
 
@@ -1179,9 +1193,11 @@ def SpillRes (s : Sys) (op : Op) : Prop :=
 theorem step_finv {base : Nat → Int} (s : Sys) (op : Op) (h : FInv base s) (hop : OpOK s op) :
     FInv base (step s op).1 ∧ SpillRes s op := by
   have hinv := step_inv s op h.inv hop
+  have hsrc : ∀ f, 0 ≤ base f ∧ (f < (step s op).1.w.nsrc → 1 ≤ base f) := by
+    rw [step_nsrc s op h.inv]; exact h.src
   by_cases hns : op.spills = false
   · have hs := step_same s op hns
-    refine ⟨⟨hinv, ?_⟩, ?_⟩
+    refine ⟨⟨hinv, ?_, hsrc⟩, ?_⟩
     · have hg : GI base s.w (s.chunks ++ []) := by simpa using h.gi
       have := hg.step (step_conserve s op) hs.grows hinv.fresh (hs.wi h.gi.wi) hinv.valid_chunks
       simpa using this
@@ -1190,16 +1206,16 @@ theorem step_finv {base : Nat → Int} (s : Sys) (op : Op) (h : FInv base s) (ho
     | appendMemToTempfile qi d =>
       cases qi
       · obtain ⟨a1, a2, a3, a4⟩ := appendMemToTempfile_spill base s.q1.chunks s.w s.q0 d h.inv.q0 h.gi
-        refine ⟨⟨hinv, a2⟩, a4, ?_⟩
+        refine ⟨⟨hinv, a2, hsrc⟩, a4, ?_⟩
         exact absChunks_ext h.inv.q1.valid a3
       · obtain ⟨a1, a2, a3, a4⟩ := appendMemToTempfile_spill base s.q0.chunks s.w s.q1 d h.inv.q1 h.gi.comm
-        refine ⟨⟨hinv, a2.comm⟩, a4, ?_⟩
+        refine ⟨⟨hinv, a2.comm, hsrc⟩, a4, ?_⟩
         exact absChunks_ext h.inv.q0.valid a3
     | stealWithTempfiles qi n =>
       cases qi
       · have hg : GI base s.w (s.q0.chunks ++ (s.q1.chunks ++ [])) := by simpa [Sys.chunks] using h.gi
         obtain ⟨a1, a2, a3, a4, a5⟩ := stealWithTempfiles_spill base [] s.w s.q0 s.q1 n h.inv.q0 h.inv.q1 hg
-        refine ⟨⟨hinv, ?_⟩, a5⟩
+        refine ⟨⟨hinv, ?_, hsrc⟩, a5⟩
         have : GI base (stealWithTempfiles s.w s.q0 s.q1 n).1
             ((stealWithTempfiles s.w s.q0 s.q1 n).2.1.chunks ++ (stealWithTempfiles s.w s.q0 s.q1 n).2.2.1.chunks) := by
           simpa using a3
@@ -1208,7 +1224,7 @@ theorem step_finv {base : Nat → Int} (s : Sys) (op : Op) (h : FInv base s) (ho
           have : GI base s.w (s.q0.chunks ++ s.q1.chunks) := h.gi
           simpa using this.comm
         obtain ⟨a1, a2, a3, a4, a5⟩ := stealWithTempfiles_spill base [] s.w s.q1 s.q0 n h.inv.q1 h.inv.q0 hg
-        refine ⟨⟨hinv, ?_⟩, a5⟩
+        refine ⟨⟨hinv, ?_, hsrc⟩, a5⟩
         have : GI base (stealWithTempfiles s.w s.q1 s.q0 n).1
             ((stealWithTempfiles s.w s.q1 s.q0 n).2.1.chunks ++ (stealWithTempfiles s.w s.q1 s.q0 n).2.2.1.chunks) := by
           simpa using a3
